@@ -200,4 +200,4 @@ def gen_history(rng: random.Random, profile: str = 'mixed') -> dict:
         g.op_advance()
         g.ops.append(['wake'])
     return {'t0': g.t0, 'enabled': enabled, 'store': store, 'fexec': fexec, 'fcb': fcb, 'ops': g.ops,
-            'profile': profile, 'tz': g.tz, 'shared_exc': r.random() < 0.3}
+            'profile': profile, 'tz': g.tz, 'shared_exc': r.random() < 0.3, 'group_exc': r.random() < 0.15}
